@@ -388,17 +388,27 @@ class RefCPU:
             self.branch_to(self.exc_vector_base() + 4)
         self.events.append('undef')
 
-    def take_svc(self):
+    def _svc_syndrome(self, imm16, cond):
+        """CallSupervisor(): HSRString = Zeros(25), <15:0> = the immediate if CurrentCond() is AL else UNKNOWN; exception class
+        0x11 copies the string into HSR<24:0>.  HSR.IL (bit 25) is left out of the comparison.  Without an instruction (the
+        entry procedure called directly) nothing is known about HSR."""
+        if imm16 is None:
+            self.unknown.add('hsr')
+            return
+        self.s['hsr'] = (0b010001 << 26) | (imm16 & 0xFFFF)
+        self.unknown_bits['hsr'] = self.unknown_bits.get('hsr', 0) | (1 << 25) | (0 if cond == 14 else 0xFFFF)
+
+    def take_svc(self, imm16=None, cond=14):
+        take_to_hyp, route_to_hyp = self._hyp_routing()
+        if take_to_hyp or route_to_hyp:
+            self._svc_syndrome(imm16, cond)
         self.it_advance()
         pc = self.R(15)
         new_lr = (pc - 2 if self.T else pc - 4) & 0xFFFFFFFF
         new_spsr = self.cpsr()
-        take_to_hyp, route_to_hyp = self._hyp_routing()
         if take_to_hyp:
-            self.unknown.add('hsr')
             self.enter_hyp(new_spsr, new_lr, 8)
         elif route_to_hyp:
-            self.unknown.add('hsr')
             self.enter_hyp(new_spsr, new_lr, 20)
         else:
             self._enter_common(M_SVC, new_spsr, new_lr)
